@@ -67,7 +67,10 @@ ScanTok(st, tk) ==
          ELSE [st EXCEPT !.edges = Append(@, [u |-> tk.s, v |-> tk.d, w |-> NaN, a |-> 0]), !.inEdge = tk.open]
     [] tk.t = "/E" -> [st EXCEPT !.inEdge = FALSE]
     [] tk.t = "D" ->
-         IF tk.key = "none" \/ tk.key = "other" \/ (tk.key = "alt" /\ st.wkey # "alt") \/ (tk.key = "weight" /\ st.wkey # "weight")
+         (* a node or edge element nested inside a data element: whether it counts as an element of the graph is not
+            specified, whatever the key *)
+         IF tk.txt \in {"childnode", "childedge"} THEN [st EXCEPT !.lenient = TRUE]
+         ELSE IF tk.key = "none" \/ tk.key = "other" \/ (tk.key = "alt" /\ st.wkey # "alt") \/ (tk.key = "weight" /\ st.wkey # "weight")
            THEN st                                               \* not the weight key: ignored
          ELSE IF ~st.inEdge THEN [st EXCEPT !.wlenient = TRUE]    \* weight data outside an open edge: unspecified
          ELSE IF tk.txt = "num"
